@@ -1484,6 +1484,8 @@ struct LetFinder<'b> {
     src: &'b str,
     anchor: &'b str,
     nth: usize,
+    /// how many matching binders to skip first (`$name#k@j`: the j-th match)
+    skip: usize,
     found: Option<String>,
 }
 impl<'ast, 'b> Visit<'ast> for LetFinder<'b> {
@@ -1496,13 +1498,54 @@ impl<'ast, 'b> Visit<'ast> for LetFinder<'b> {
             if anchor_match(stmt_text_no_attrs(self.src, s, r.start, r.end), self.anchor) {
                 let mut ids = vec![];
                 collect_pat_idents(&l.pat, &mut ids);
-                if let Some(id) = ids.get(self.nth) {
+                // (an occurrence counts whether or not its pattern binds enough identifiers)
+                if self.skip > 0 {
+                    self.skip -= 1;
+                } else if let Some(id) = ids.get(self.nth) {
                     self.found = Some(id.clone());
                     return;
                 }
             }
         }
         visit::visit_stmt(self, s);
+    }
+    /// `for PAT in EXPR { .. }`: matched on the text of the loop header
+    fn visit_expr_for_loop(&mut self, l: &'ast syn::ExprForLoop) {
+        if self.found.is_none() {
+            let start = l.for_token.span().byte_range().start;
+            let end = l.body.span().byte_range().start;
+            if anchor_match(self.src[start..end].trim(), self.anchor) {
+                let mut ids = vec![];
+                collect_pat_idents(&l.pat, &mut ids);
+                // (an occurrence counts whether or not its pattern binds enough identifiers)
+                if self.skip > 0 {
+                    self.skip -= 1;
+                } else if let Some(id) = ids.get(self.nth) {
+                    self.found = Some(id.clone());
+                    return;
+                }
+            }
+        }
+        visit::visit_expr_for_loop(self, l);
+    }
+    /// `|PARAMS| BODY`: matched on the text of the closure; the identifiers its parameters bind
+    fn visit_expr_closure(&mut self, c: &'ast syn::ExprClosure) {
+        // inner closures first (the innermost closure containing the anchor text wins)
+        visit::visit_expr_closure(self, c);
+        if self.found.is_none() && self.anchor.starts_with("|") {
+            let r = c.span().byte_range();
+            if self.src[r].contains(self.anchor.trim_start_matches('|').trim_start_matches('~').trim()) {
+                let mut ids = vec![];
+                for p in &c.inputs {
+                    collect_pat_idents(p, &mut ids);
+                }
+                if self.skip > 0 {
+                    self.skip -= 1;
+                } else if let Some(id) = ids.get(self.nth) {
+                    self.found = Some(id.clone());
+                }
+            }
+        }
     }
     /// `if let PAT = EXPR` / `while let PAT = EXPR`: matched on the text of `PAT = EXPR`
     fn visit_expr_let(&mut self, l: &'ast syn::ExprLet) {
@@ -1511,7 +1554,10 @@ impl<'ast, 'b> Visit<'ast> for LetFinder<'b> {
             if anchor_match(&self.src[r], self.anchor) || anchor_match(&self.src[l.expr.span().byte_range()], self.anchor) {
                 let mut ids = vec![];
                 collect_pat_idents(&l.pat, &mut ids);
-                if let Some(id) = ids.get(self.nth) {
+                // (an occurrence counts whether or not its pattern binds enough identifiers)
+                if self.skip > 0 {
+                    self.skip -= 1;
+                } else if let Some(id) = ids.get(self.nth) {
                     self.found = Some(id.clone());
                     return;
                 }
@@ -1708,6 +1754,8 @@ fn main() {
 
     let mut output = String::new();
     let mut last_text_fn = String::new();
+    // where in `output` the head of that wrapper starts (placeholders of `@@bind` are resolved there too)
+    let mut last_text_fn_at: usize = 0;
     let mut pending_tail_subst: Vec<(String, String)> = vec![];
     let mut skip_wrapper_tail = false;
     let mut stubbed: Vec<String> = vec![];
@@ -1750,6 +1798,7 @@ fn main() {
                     output.push_str(t);
                 }
                 // remember the last hand-written `fn name` (wrapper of the slices that follow)
+                let text_base = output.len().saturating_sub(t.len());
                 for (pos, _) in t.match_indices("fn ") {
                     let rest = &t[pos + 3..];
                     let name: String = rest.chars().take_while(|c| c.is_alphanumeric() || *c == '_').collect();
@@ -1758,6 +1807,7 @@ fn main() {
                     let is_comment = t[line_start..pos].trim_start().starts_with("//");
                     if before_ok && !name.is_empty() && !is_comment {
                         last_text_fn = name;
+                        last_text_fn_at = text_base + line_start;
                     }
                 }
             }
@@ -1841,7 +1891,7 @@ fn main() {
             }
             Node::Func(d0) => {
                 let key_sel = if d0.is_slice {
-                    format!("{} @from:{}", d0.selector, d0.from.clone().unwrap_or_default())
+                    slice_key(&d0.selector, d0.from.as_deref(), d0.block.as_deref())
                 } else if let Some(k) = d0.hoist {
                     format!("{} @hoist:{}", d0.selector, k)
                 } else {
@@ -1854,7 +1904,7 @@ fn main() {
                 let d: &FnDir = if vsel == 0 { d0 } else { &d0.alts[vsel - 1] };
                 let n_variants = 1 + d0.alts.len();
                 let key0 = if d.is_slice {
-                    format!("{} @from:{}", d.selector, d.from.clone().unwrap_or_default())
+                    slice_key(&d.selector, d.from.as_deref(), d.block.as_deref())
                 } else if let Some(k) = d.hoist {
                     format!("{} @hoist:{}", d.selector, k)
                 } else {
@@ -1877,7 +1927,7 @@ fn main() {
                 // function unverified; its obligations are reported as UNDECIDED by the driver
                 let own_name = d.name.clone().unwrap_or_else(|| f.sig.ident.to_string());
                 let stub_key = if d.is_slice {
-                    format!("{} @from:{}", d.selector, d.from.clone().unwrap_or_default())
+                    slice_key(&d.selector, d.from.as_deref(), d.block.as_deref())
                 } else if let Some(k) = d.hoist {
                     format!("{} @hoist:{}", d.selector, k)
                 } else {
@@ -2277,9 +2327,10 @@ fn main() {
                 // `@@bind $name ~anchor`
                 for (ph, anchor) in &d.binds {
                     // `$name#k` = the k-th identifier the pattern binds
+                    let (ph, occ) = match ph.split_once('@') { Some((p, j)) => (p.to_string(), j.parse::<usize>().unwrap_or(0)), None => (ph.clone(), 0) };
                     let (ph, nth) = match ph.split_once('#') { Some((p, k)) => (p.to_string(), k.parse::<usize>().unwrap_or(0)), None => (ph.clone(), 0) };
                     let ph = &ph;
-                    let mut lf = LetFinder { src: &src.text, anchor, nth, found: None };
+                    let mut lf = LetFinder { src: &src.text, anchor, nth, skip: occ, found: None };
                     lf.visit_block(f.block);
                     let bind_idx = d.binds.iter().position(|(p2, a2)| a2 == anchor && p2.starts_with(ph.as_str())).unwrap_or(usize::MAX);
                     let id = match lf.found {
@@ -2288,6 +2339,13 @@ fn main() {
                         None => die(&format!("{ctx}: @@bind anchor matches no `let` statement: {anchor}")),
                     };
                     text = text.replace(ph.as_str(), &id);
+                    // a slice's wrapper (hand-written text in front of it) may use the placeholder too,
+                    // e.g. as the name of a parameter
+                    if d.is_slice && last_text_fn_at <= output.len() {
+                        let head = output[last_text_fn_at..].replace(ph.as_str(), &id);
+                        output.truncate(last_text_fn_at);
+                        output.push_str(&head);
+                    }
                 }
                 // longest placeholders first (`$last10` before `$last1`)
                 slice_binds.sort_by(|a, b| b.0.len().cmp(&a.0.len()));
@@ -2411,6 +2469,16 @@ fn check_used(ed: &Ed, d: &FnDir, ctx: &str) {
 }
 
 /// anchor `abc` = statement text starts with `abc`; anchor `~abc` = statement text contains `abc`
+/// the key of a slice directive (what `--stub` / `--variant` address): the `@@block` anchor is part
+/// of it when it differs from `@@from`, so that several slices `@@from ^` of one function differ
+fn slice_key(selector: &str, from: Option<&str>, block: Option<&str>) -> String {
+    let from = from.unwrap_or_default();
+    match block {
+        Some(b) if b != from => format!("{selector} @from:{from} @block:{b}"),
+        _ => format!("{selector} @from:{from}"),
+    }
+}
+
 fn caught_guarded(repl: &str) -> String {
     match repl.split_once("|||") {
         Some((g, _)) => g.trim().to_string(),
